@@ -170,6 +170,12 @@ def gen(rnd, sid, mode=None, features=None, tank_bias=False):
             st = rnd.choice([H, H + 600, 2 * H, 0])
             rnd.choice(tanks)["leak"] = {"on": True, "area": rgrid(rnd, 0.0001, 0.001, 0.0001), "cd": rnd.choice([0.75, 0.6]),
                                          "start": st, "end": rnd.choice([-1, -1, st + 2 * H + 300])}
+    # time controls that change the setting of a valve during the run (the law must follow the reported setting)
+    s["sctl"] = []
+    for l in links:
+        if l["type"] in ("PRV", "PSV", "FCV", "TCV") and rnd.random() < 0.5:
+            s["sctl"].append({"thr": H * rnd.randint(1, 3), "link": l["name"],
+                              "val": l["setting"] * rnd.choice([0.5, 2.0]) if l["type"] != "TCV" else l["setting"] * rnd.choice([0.2, 8.0])})
     # time controls on pipes (status) - may isolate parts of the network
     if "controls" in f and rnd.random() < 0.6:
         plinks = [i + 1 for i, l in enumerate(links) if l["type"] == "pipe"]
